@@ -87,7 +87,7 @@ def run(prop, tier, seed, replay=None):
     else:
         gruns = [dict(NMIN=1, NMAX=3, DIAG={0, 1, 2, 4}, OFFK=2, STRIDE=1, OFFSET=0),
                  dict(NMIN=4, NMAX=4, DIAG={0, 1, 2, 4}, OFFK=1, STRIDE=11, OFFSET=rnd.randrange(11)),
-                 dict(NMIN=5, NMAX=5, DIAG={1, 2}, OFFK=1, STRIDE=20011, OFFSET=rnd.randrange(20011))]
+                 dict(NMIN=5, NMAX=5, DIAG={1}, OFFK=1, STRIDE=211, OFFSET=rnd.randrange(211))]
     gst = 0
     for i, c in enumerate(gruns):
         g = core.tlc("Gen_Chol", core.cfg_text(constants=c, invariants=["Emit"], overrides={"TOLS": "MCTols"}), "gen_chol_%d" % i, wd,
